@@ -40,6 +40,11 @@ from lib.straxlib import strax           # noqa: E402
 
 import numpy as np                       # noqa: E402
 from immutabledict import immutabledict  # noqa: E402
+import tqdm as _tqdm                     # noqa: E402
+
+# strax makes a (disabled) progress bar per get_iter; tqdm's monitor thread would be alive in the parent when the
+# worker processes are forked, and a lock it holds at that moment stays locked for ever in the children
+_tqdm.tqdm.monitor_interval = 0
 
 ID = "C01"
 LEAN_MODULES = ["StraxModel.Props.C01"]
@@ -51,8 +56,9 @@ TRUSTED = [
     "not enumerated (C05 enumerates them for a single mailbox)",
 ]
 ASSUMPTIONS = [
-    "max_messages is raised above the lag of the graph when an exhaust / overlap-window plugin sits on a reconvergent path "
-    "(capacity deadlocks are C06 / D10)",
+    "max_messages is raised above the lag of the graph whenever a data type has two readers one of which feeds the other "
+    "(reconvergent path: exhaust / overlap-window plugins and the alignment of differently chunked streams make the upstream "
+    "reader run ahead; capacity deadlocks are C06 / D10); otherwise max_messages is sampled from 2..6",
     "process pools (parallel='process', allow_multiprocess) are outside the model and not generated",
     "row payload is an opaque id per data type; ids are combined with small modular arithmetic so that every plugin kind's "
     "whole-run result is sensitive to lost, duplicated, reordered or regrouped rows",
@@ -347,7 +353,7 @@ def _chunk_tuple(t, c):
     return [int(c.start), int(c.end), rows_of(t, c.data)]
 
 
-TIMEOUTISH = ("MailboxFullTimeout", "MailboxReadTimeout", "did not terminate")
+TIMEOUTISH = ("MailboxFullTimeout", "MailboxReadTimeout", "did not terminate", "timed out")
 
 
 def _threaded_phase(case, res):
@@ -359,7 +365,7 @@ def run_case(case):
     """run the case; triage an error of the threaded processor before it is judged:
     (1) the same case under the single-thread processor gives the root cause (an exception raised inside a plugin
         thread reaches the caller late or as `Thread … did not terminate`, which is C06's business);
-    (2) a mailbox timeout that has no root cause is tried once more with three times the timeout, so that a stall of
+    (2) a mailbox timeout that has no root cause is tried once more with a timeout of at least 120 s, so that a stall of
         the machine is not reported as a deadlock (a genuine deadlock times out again and is reported)."""
     res = run_case_once(case)
     if res["phase"] == "adapter" or not res["line"].startswith("err") or not _threaded_phase(case, res):
@@ -371,7 +377,7 @@ def run_case(case):
     if res["root_exc"] is None and any(k in (res["exc"] or "") for k in TIMEOUTISH):
         slow = json.loads(json.dumps(case))
         for key in ("cfg", "prep_cfg"):
-            slow[key]["timeout"] = 3 * slow[key]["timeout"]
+            slow[key]["timeout"] = max(120, 4 * slow[key]["timeout"])
         again = run_case_once(slow)
         again["retried_after"] = res["exc"]
         again["root_exc"] = None
@@ -594,6 +600,24 @@ def brick_sources(rng):
     return a, b
 
 
+def reconvergent(nodes):
+    """some data type has two consumers of which one (transitively) feeds the other"""
+    prov = {o: i for i, n in enumerate(nodes) for o in n["outs"]}
+    anc = []                                   # per node: the set of node indices it depends on, transitively
+    for i, n in enumerate(nodes):
+        a = set()
+        for d in n["deps"]:
+            if d in prov:
+                a.add(prov[d])
+                a |= anc[prov[d]]
+        anc.append(a)
+    readers = {}
+    for i, n in enumerate(nodes):
+        for d in n["deps"]:
+            readers.setdefault(d, []).append(i)
+    return any(a in anc[b] or b in anc[a] for rs in readers.values() for a in rs for b in rs if a != b)
+
+
 def gen_case(rng, quick=True, force=None):
     """one random case; `force` may pin {'brick': bool, 'd13': bool}"""
     force = force or {}
@@ -753,9 +777,12 @@ def gen_case(rng, quick=True, force=None):
         return cfg
     case = dict(srcs=srcs, nodes=nodes, kinds=kinds, span=[t0, t1], target=target, stored=stored,
                 cfg=config(False), prep_cfg=config(True), mode="array" if rng.random() < 0.2 else "iter")
-    # capacity above the lag of the graph (see ASSUMPTIONS): an exhaust plugin withholds the whole run, an overlap
-    # plugin up to (2w+1)/chunk-duration chunks; a sibling reader of the same input must be able to wait that long
-    if any(n["kind"] in ("exhaust", "overlap") for n in nodes):
+    # capacity above the lag of the graph (see ASSUMPTIONS): when a data type has two readers one of which feeds the
+    # other, the downstream reader must be able to wait while the upstream one reads ahead - by the whole run behind an
+    # exhaust plugin, by (2w+1)/chunk-duration chunks behind an overlap window, by as many chunks as a coarser
+    # dependency spans when two differently chunked streams are aligned.  Below that capacity the mailboxes deadlock
+    # (D10, C06); the property quantifies over capacities above the lag only.
+    if reconvergent(nodes):
         bound = 2 + max(len(s[key]) for s in srcs for key in ("chunks", "prep_chunks")) + sum(len(s["rows"]) for s in srcs)
         for cfg in (case["cfg"], case["prep_cfg"]):
             cfg["mm"] = max(cfg["mm"], bound)
@@ -824,38 +851,6 @@ def warm_up():
         run_case_once(case)
 
 
-def _cache_stamp():
-    import hashlib
-    h = hashlib.sha1(sl.REPO.encode())
-    for root, _dirs, files in sorted(os.walk(os.path.join(sl.REPO, "strax"))):
-        for f in sorted(files):
-            if f.endswith(".py"):
-                h.update(f"{f}:{os.path.getmtime(os.path.join(root, f))}".encode())
-    return h.hexdigest()
-
-
-def ensure_warm_cache():
-    """fill the on-disk numba cache in ONE child process before the pool starts (otherwise every worker compiles
-    every kernel at the same time); skipped when the cache was filled for these very source files"""
-    import multiprocessing as mp
-    marker = os.path.join(os.environ["NUMBA_CACHE_DIR"], "c01_warm_stamp")
-    stamp = _cache_stamp()
-    try:
-        if open(marker).read() == stamp:
-            return False
-    except OSError:
-        pass
-    p = mp.get_context("fork").Process(target=warm_up)
-    p.start()
-    p.join(900)
-    if p.is_alive():
-        p.terminate()
-    elif p.exitcode == 0:
-        os.makedirs(os.path.dirname(marker), exist_ok=True)
-        open(marker, "w").write(stamp)
-    return True
-
-
 def _worker(args):
     i, case = args
     _quiet()
@@ -865,19 +860,40 @@ def _worker(args):
     return i, res
 
 
-def run_pool(cases, workers, budget_s, note=None, stall_s=400):
+def run_pool(cases, workers, budget_s, note=None, stall_s=400, dead_s=150):
     """run the cases in forked worker processes (each has strax imported through lib.straxlib); stops feeding new
     cases after `budget_s`; a case that has not come back `stall_s` seconds after it was handed out is a hang"""
     import multiprocessing as mp
-    ensure_warm_cache()
-    mk = lambda: mp.get_context("fork").Pool(workers, initializer=warm_up)   # noqa: E731
+    # every jitted kernel is compiled / loaded ONCE, here, before the workers are forked: they inherit it.  (No strax
+    # thread survives a finished run, so forking afterwards is safe.)
+    t0 = time.time()
+    warm_up()
+    if note:
+        note(f"warm-up of the jitted kernels took {time.time() - t0:.0f} s")
+    import threading
+    mon = getattr(_tqdm.tqdm, "monitor", None)
+    if mon is not None:
+        mon.exit()
+        _tqdm.tqdm.monitor = None
+    t1 = time.time()
+    while threading.active_count() > 1 and time.time() - t1 < 10:
+        time.sleep(0.1)
+    if threading.active_count() > 1 and note:
+        note(f"threads alive at fork time: {[t.name for t in threading.enumerate()][1:]}")
+    mk = lambda: mp.get_context("fork").Pool(workers)   # noqa: E731
     pool = mk()
     results, flight = {}, {}
     todo = list(enumerate(cases))[::-1]
     t_end = time.time() + budget_s
+    last_result = time.time()
+    restarts = 0
+
+    def hang(i, why):
+        return dict(line="err Hang", exc=why, phase="main", elapsed=float(stall_s), chunks=None, saved={}, prep=[],
+                    expect={}, oracle_exc=None, rows=None, hang=True)
     try:
         while flight or (todo and time.time() < t_end):
-            while todo and len(flight) < 2 * workers and time.time() < t_end:
+            while todo and len(flight) < workers + 2 and time.time() < t_end:
                 i, case = todo.pop()
                 flight[i] = (pool.apply_async(_worker, ((i, case),)), time.time())
             progressed = False
@@ -886,22 +902,37 @@ def run_pool(cases, workers, budget_s, note=None, stall_s=400):
                     _, results[i] = ar.get()
                     del flight[i]
                     progressed = True
-            if not progressed:
-                stuck = [i for i, (_ar, t0) in flight.items() if time.time() - t0 > stall_s]
-                if stuck:
-                    for i in stuck:
-                        results[i] = dict(line="err Hang", exc=f"no result within {stall_s} s (worker stuck)", phase="main",
-                                          elapsed=float(stall_s), chunks=None, saved={}, prep=[], expect={}, oracle_exc=None,
-                                          rows=None, hang=True)
-                        del flight[i]
-                    # the other cases in flight are handed out again to a fresh pool
-                    for i in list(flight):
-                        todo.append((i, cases[i]))
-                        del flight[i]
-                    pool.terminate()
-                    pool = mk()
-                else:
-                    time.sleep(0.05)
+                    last_result = time.time()
+            if progressed:
+                continue
+            now = time.time()
+            if flight and now - last_result > dead_s and restarts < 2 and all(now - t0 > dead_s for _ar, t0 in flight.values()):
+                # nothing at all comes back: the pool itself is dead (e.g. a lock inherited in a bad state at fork
+                # time); start a fresh one and hand the same cases out again
+                restarts += 1
+                if note:
+                    note(f"no result from any worker for {dead_s} s: pool restarted, {len(flight)} cases handed out again")
+                for i in list(flight):
+                    todo.append((i, cases[i]))
+                    del flight[i]
+                pool.terminate()
+                pool = mk()
+                last_result = time.time()
+                t_end += dead_s
+                continue
+            stuck = [i for i, (_ar, t0) in flight.items() if now - t0 > stall_s]
+            if stuck:
+                for i in stuck:
+                    results[i] = hang(i, f"no result within {stall_s} s (worker stuck)")
+                    del flight[i]
+                for i in list(flight):           # the other cases in flight go to a fresh pool
+                    todo.append((i, cases[i]))
+                    del flight[i]
+                pool.terminate()
+                pool = mk()
+                last_result = time.time()
+            else:
+                time.sleep(0.05)
         if todo and note:
             note(f"time budget of {budget_s} s reached: {len(todo)} of {len(cases)} generated cases not run")
     finally:
@@ -951,7 +982,7 @@ def gen_cases(ctx):
 def run(ctx):
     cases = gen_cases(ctx)
     workers = int(os.environ.get("VERIF_C01_WORKERS", "8"))
-    results = run_pool(cases, workers, ctx.pick(150, 1000), note=ctx.note)
+    results = run_pool(cases, workers, ctx.pick(120, 1000), note=ctx.note)
     done = [i for i in range(len(cases)) if i in results]
     msgs = {}
     for i in done:
